@@ -34,6 +34,8 @@ def ty_vy(t):
         return f"DynArray[{ty_vy(t[1])}, {t[2]}]"
     if k == "struct":
         return t[1]
+    if k == "map":
+        return f"HashMap[{ty_vy(t[1])}, {ty_vy(t[2])}]"
     raise ValueError(t)
 
 
@@ -66,6 +68,8 @@ def ty_coq(t):
         return f"(TDArr {ty_coq(t[1])} {t[2]})"
     if k == "struct":
         return "(TStruct [" + "; ".join(ty_coq(ft) for _, ft in t[2]) + "])"
+    if k == "map":
+        return f"(TMap {ty_coq(t[1])} {ty_coq(t[2])})"
     raise ValueError(t)
 
 
@@ -81,6 +85,8 @@ def zero_val(t):
         return []
     if k == "struct":
         return [zero_val(ft) for _, ft in t[2]]
+    if k == "map":
+        return {}
     raise ValueError(t)
 
 
@@ -101,7 +107,10 @@ def val_vy(v, t):
     if k == "int":
         return str(v)
     if k == "addr":
-        return "0x" + v.to_bytes(20, "big").hex() if v else "empty(address)"
+        if not v:
+            return "empty(address)"
+        from eth_utils import to_checksum_address
+        return to_checksum_address("0x" + v.to_bytes(20, "big").hex())
     if k in ("sarr", "darr"):
         if not v:
             return f"empty({ty_vy(t)})"
